@@ -94,9 +94,7 @@ def collect_information(exprs):  # noqa: C901
             if cmd[2] == tuple():
                 __constants[cmd[1]] = cmd[3]
             __defined_functions[cmd[1]] = (len(
-                cmd[2]), lambda args, cmd=cmd: nodes.substitute(
-                    cmd[4], {cmd[2][i][0]: args[i]
-                             for i in range(len(args))}))
+                cmd[2]), lambda args, cmd=cmd: __instantiate(cmd, args))
             __definition_node_ids.add(cmd[1].id)
             __definition_node_ids.add(cmd[4].id)
             __sort_lookup[cmd[1].data] = cmd[3]
@@ -172,6 +170,36 @@ def collect_information(exprs):  # noqa: C901
                 if sym.is_leaf():
                     __sort_lookup[sym.data] = term
                     __definition_node_ids.add(sym.id)
+
+
+def get_bound_symbols(node):
+    """Return all symbols bound by ``let``, ``forall`` or ``exists`` binders
+    within ``node``."""
+    res = []
+    for n in nodes.dfs(node):
+        if n.has_ident() and len(n) > 1 and not n[1].is_leaf() \
+           and n.get_ident() in ['let', 'forall', 'exists']:
+            res.extend(v[0] for v in n[1] if len(v) > 0)
+    return res
+
+
+def __instantiate(cmd, args):
+    """Instantiate the body of the ``define-fun`` command ``cmd`` with
+    ``args``.
+
+    The substitution is purely structural. Return ``None`` if it would
+    capture variables, i.e., if a binder within the body binds a parameter
+    or a symbol that occurs in ``args``.
+    """
+    bound = get_bound_symbols(cmd[4])
+    if bound:
+        if any(len(p) > 0 and p[0] in bound for p in cmd[2]):
+            return None
+        if any(n in bound for arg in args for n in nodes.dfs(arg)):
+            return None
+    return nodes.substitute(
+        cmd[4], {cmd[2][i][0]: args[i]
+                 for i in range(len(args))})
 
 
 def reset_information():
@@ -813,10 +841,13 @@ def get_defined_fun(node):
     assert is_defined_fun(node)
     if node.is_leaf():
         _, func = __defined_functions[node.data]
-        return func([])
+        res = func([])
+        return node if res is None else res
     arity, func = __defined_functions[node.get_ident()]
     if arity == len(node[1:]):
-        return func(node[1:])
+        res = func(node[1:])
+        if res is not None:
+            return res
     return node
 
 
